@@ -41,6 +41,13 @@ mkdir -p "$BIN" "$W/tmp"
   else
     echo "build.sh: maporder rewrite failed; the C15 order leg will be skipped" >&2
   fi
+  # free-running race-detector pass (C15, C17): built with -race; skipped if that build is not possible
+  rm -f "$BIN/jdmc-race"
+  if [ "$REPO" = "/repo" ]; then
+    go build -race -o "$BIN/jdmc-race" ./cmd/racer || echo "build.sh: -race build failed; the concurrency leg will be skipped" >&2
+  else
+    go build -modfile="$BIN/alt.mod" -race -o "$BIN/jdmc-race" ./cmd/racer || echo "build.sh: -race build failed; the concurrency leg will be skipped" >&2
+  fi
   (cd "$REPO/v2" && go build -o "$BIN/jd-v2" ./jd)
   (cd "$REPO" && go build -o "$BIN/jd-top" .)
 ) 9>"$W/build.lock"
